@@ -219,13 +219,21 @@ class Ctx:
         """build theorem / obligation modules; each module is one obligation"""
         ok, log, failed, dt = lake_build(modules)
         self.checker_cmds.append('cd lean && lake build ' + ' '.join(modules))
+        status = {}
+        if ok:
+            status = {m: (True, '') for m in modules}
+        else:
+            # a failing dependency is not listed under the target's own name: settle each target on its own
+            for m in modules:
+                ok1, log1, failed1, _ = lake_build([m])
+                detail = ''
+                if not ok1:
+                    errs = re.findall(r'error: [^\n]*(?:\n(?!error:|trace:|✖|✔|⚠)[^\n]*){0,8}', log1)
+                    detail = '\n'.join(errs[:3]) if errs else log1[-1500:]
+                status[m] = (ok1, detail)
         for m in modules:
-            bad = (m in failed) or (not ok and not failed)
-            detail = ''
-            if bad:
-                mm = re.search(r'error: (?:\S*%s\.lean[^\n]*\n(?:.*\n){0,6})' % re.escape(m.split('.')[-1]), log)
-                detail = mm.group(0) if mm else log[-1500:]
-            self.oblig(m, 'lean-module', not bad, detail)
+            self.oblig(m, 'lean-module', status[m][0], status[m][1])
+        failed = [m for m in modules if not status[m][0]]
         return ok, log, failed
 
     def audit(self, imports, names):
